@@ -5,9 +5,10 @@
 -/
 import Depccg.Props.C11Defs
 import Depccg.Proofs.SearchLemmas
+import Depccg.Proofs.HeapLemmas
 
 namespace Depccg.C11
-open Depccg Search Glue
+open Depccg Search Glue SearchProps
 
 /-! ### `_chunks` -/
 
@@ -209,13 +210,186 @@ theorem removeFirst_map (σ : Nat → Nat) (p : Item → Bool)
       | none => rfl
       | some q => obtain ⟨y, rest⟩ := q; rfl
 
-theorem pickFirstMax_map (σ : Nat → Nat) (l : List Item) :
-    pickFirstMax (l.map (renameItem σ)) = (pickFirstMax l).map (renamePick σ) := by
-  unfold pickFirstMax
+theorem c11_popFirstMax_map (σ : Nat → Nat) (l : List Item) :
+    popFirstMax (l.map (renameItem σ)) = (popFirstMax l).map (renamePick σ) := by
+  unfold popFirstMax
   rw [maxPrio_map]
   cases maxPrio l with
   | none => rfl
   | some m => exact removeFirst_map σ _ (fun _ => rfl) l
+
+/-! ### renaming: the binary heap
+
+Every comparison made by `siftUp` / `sink` / the guard of `popHeap` looks at `Item.prio` only, so the
+heap operations commute with any map that preserves the priorities. -/
+
+theorem c11_swapIfInBounds_map {α β : Type} (f : α → β) (a : Array α) (i j : Nat) :
+    (a.map f).swapIfInBounds i j = (a.swapIfInBounds i j).map f := by
+  unfold Array.swapIfInBounds
+  simp only [Array.size_map]
+  split
+  · split
+    · apply Array.ext
+      · simp
+      · intro k h1 h2
+        simp [Array.getElem_swap]
+        split
+        · rfl
+        · split <;> rfl
+    · rfl
+  · rfl
+
+section HeapMap
+variable (f : Item → Item) (hf : ∀ x, (f x).prio = x.prio)
+include hf
+
+theorem c11_siftUp_map (fuel : Nat) : ∀ (a : Array Item) (i : Nat),
+    siftUp (a.map f) fuel i = (siftUp a fuel i).map f := by
+  induction fuel with
+  | zero => intro a i; rfl
+  | succ fuel ih =>
+    intro a i
+    simp only [siftUp]
+    split
+    · rfl
+    · simp only [Array.getElem?_map]
+      cases hp : a[(i - 1) / 2]? with
+      | none => rfl
+      | some x =>
+        cases hi : a[i]? with
+        | none => rfl
+        | some v =>
+          simp only [Option.map_some, hf]
+          split
+          · rw [c11_swapIfInBounds_map, ih]
+          · rfl
+
+theorem c11_heapPush_map (a : Array Item) (v : Item) :
+    heapPush (a.map f) (f v) = (heapPush a v).map f := by
+  unfold heapPush
+  rw [← Array.map_push, c11_siftUp_map f hf, Array.size_map]
+
+theorem c11_childIdx_map (a : Array Item) (h : Nat) :
+    heap_childIdx (a.map f) h = heap_childIdx a h := by
+  unfold heap_childIdx
+  simp only [Array.getElem?_map]
+  cases a[2 * (h + 1)]? <;> cases a[2 * (h + 1) - 1]? <;>
+    simp only [Option.map_some, Option.map_none, hf]
+
+theorem c11_sink_map (len : Nat) (fuel : Nat) : ∀ (a : Array Item) (h : Nat),
+    sink len (a.map f) fuel h = ((sink len a fuel h).1.map f, (sink len a fuel h).2) := by
+  induction fuel with
+  | zero => intro a h; rfl
+  | succ fuel ih =>
+    intro a h
+    simp only [heap_sink_succ, c11_childIdx_map f hf]
+    split
+    · rw [c11_swapIfInBounds_map, ih]
+    · split
+      · rw [c11_swapIfInBounds_map]
+      · rfl
+
+theorem c11_heapPop_map (a : Array Item) :
+    heapPop (a.map f) = (heapPop a).map fun p => (f p.1, p.2.map f) := by
+  unfold heapPop
+  simp only [Array.getElem?_map, Array.size_map]
+  cases a[0]? with
+  | none => rfl
+  | some top =>
+    simp only [Option.map_some]
+    split
+    · simp
+    · simp only [c11_swapIfInBounds_map, ← Array.map_pop, c11_sink_map f hf, Array.size_map,
+        c11_siftUp_map f hf, Option.map_some]
+
+theorem c11_foldl_heapPush_map (new : List Item) : ∀ (arr : Array Item),
+    (new.map f).foldl heapPush (arr.map f) = (new.foldl heapPush arr).map f := by
+  induction new with
+  | nil => intro arr; rfl
+  | cons x xs ih =>
+    intro arr
+    simp only [List.map_cons, List.foldl_cons, c11_heapPush_map f hf, ih]
+
+theorem c11_pushHeap_map (new old : List Item) :
+    pushHeap (new.map f) (old.map f) = (pushHeap new old).map f := by
+  unfold pushHeap
+  rw [← List.map_toArray, c11_foldl_heapPush_map f hf, Array.toList_map]
+
+theorem c11_allLe_map (l : List Item) (m : Int) :
+    ((l.map f).all fun o => o.prio ≤ m) = l.all fun o => o.prio ≤ m := by
+  induction l with
+  | nil => rfl
+  | cons x xs ih =>
+    simp only [List.map_cons, List.all_cons]
+    rw [ih, hf x]
+
+end HeapMap
+
+theorem c11_popHeap_map (σ : Nat → Nat) (l : List Item) :
+    popHeap (l.map (renameItem σ)) = (popHeap l).map (renamePick σ) := by
+  cases l with
+  | nil => rfl
+  | cons top xs =>
+    have hg : ((renameItem σ top :: xs.map (renameItem σ)).all
+          fun o => o.prio ≤ (renameItem σ top).prio)
+        = (top :: xs).all fun o => o.prio ≤ top.prio :=
+      c11_allLe_map (renameItem σ) (fun _ => rfl) (top :: xs) top.prio
+    have hp := c11_heapPop_map (renameItem σ) (fun _ => rfl) (top :: xs).toArray
+    rw [List.map_toArray, List.map_cons] at hp
+    by_cases hc : ((top :: xs).all fun o => o.prio ≤ top.prio) = true
+    · have hc' := hg.trans hc
+      simp only [popHeap, List.map_cons, if_pos hc, if_pos hc', hp]
+      cases heapPop (top :: xs).toArray with
+      | none => rfl
+      | some q => simp only [Option.map_some, renamePick, Array.toList_map]
+    · have hc' : ¬ ((renameItem σ top :: xs.map (renameItem σ)).all
+          fun o => o.prio ≤ (renameItem σ top).prio) = true := fun h => hc (hg.symm.trans h)
+      simp only [popHeap, List.map_cons, if_neg hc, if_neg hc']
+      exact c11_popFirstMax_map σ (top :: xs)
+
+theorem c11_pickHeap_pop_map (σ : Nat → Nat) (l : List Item) :
+    pickHeap.pop (l.map (renameItem σ)) = (pickHeap.pop l).map (renamePick σ) :=
+  c11_popHeap_map σ l
+
+theorem c11_pickHeap_push_map (σ : Nat → Nat) (new old : List Item) :
+    pickHeap.push (new.map (renameItem σ)) (old.map (renameItem σ))
+      = (pickHeap.push new old).map (renameItem σ) :=
+  c11_pushHeap_map (renameItem σ) (fun _ => rfl) new old
+
+/-! ### renaming: the chart walk -/
+
+theorem c11_flatMap_congr {α β : Type} (l : List α) (f f' : α → List β)
+    (h : ∀ a ∈ l, f a = f' a) : l.flatMap f = l.flatMap f' := by
+  induction l with
+  | nil => rfl
+  | cons x xs ih =>
+    simp only [List.flatMap_cons]
+    rw [h x (List.mem_cons_self ..), ih (fun a ha => h a (List.mem_cons_of_mem _ ha))]
+
+theorem c11_neighbours_map (f : Item → Item) (hlen : ∀ x, (f x).len = x.len)
+    (p p' : Item → Bool) (hp : ∀ o, p' (f o) = p o) (chart : List Item) :
+    neighbours (chart.map f) p' = (neighbours chart p).map f := by
+  unfold neighbours
+  have hc : (chart.map f).filter p' = (chart.filter p).map f := by
+    rw [List.filter_map]
+    congr 1
+    apply List.filter_congr
+    intro o _
+    exact hp o
+  simp only [hc]
+  have hk : ((chart.filter p).map f).reverse.map (·.len) = (chart.filter p).reverse.map (·.len) := by
+    rw [← List.map_reverse, List.map_map]
+    apply List.map_congr_left
+    intro o _
+    exact hlen o
+  rw [hk, List.map_flatMap]
+  apply c11_flatMap_congr
+  intro k _
+  rw [List.filter_map]
+  congr 1
+  apply List.filter_congr
+  intro o _
+  simp only [Function.comp, hlen]
 
 /-! ### renaming: closed-set tests -/
 
@@ -305,18 +479,16 @@ theorem binaryItems_rename {g g' : Grammar} {s s' : Sent}
     renameDeriv]
   rfl
 
-theorem filter_flatMap_rename (p p' : Item → Bool) (f f' : Item → List Item)
+theorem c11_neighbours_flatMap_rename (p p' : Item → Bool) (f f' : Item → List Item)
     (hp : ∀ o, p' (renameItem σ o) = p o)
     (hf : ∀ o, f' (renameItem σ o) = (f o).map (renameItem σ)) (chart : List Item) :
-    ((chart.map (renameItem σ)).filter p').flatMap f'
-      = ((chart.filter p).flatMap f).map (renameItem σ) := by
-  induction chart with
-  | nil => rfl
-  | cons o os ih =>
-    simp only [List.map_cons, List.filter_cons, hp]
-    split
-    · simp only [List.flatMap_cons, List.map_append, hf, ih]
-    · exact ih
+    (neighbours (chart.map (renameItem σ)) p').flatMap f'
+      = ((neighbours chart p).flatMap f).map (renameItem σ) := by
+  rw [c11_neighbours_map (renameItem σ) (fun _ => rfl) p p' hp, List.flatMap_map,
+    List.map_flatMap]
+  apply c11_flatMap_congr
+  intro o _
+  exact hf o
 
 theorem expand_rename {g g' : Grammar} {s s' : Sent} (h : Renamed σ g g' s s') (cfg : Cfg)
     (chart : List Item) (it : Item) :
@@ -331,9 +503,9 @@ theorem expand_rename {g g' : Grammar} {s s' : Sent} (h : Renamed σ g g' s s') 
         split <;> rfl
       · rw [renameItem_len, h.n, unaryItems_rename h.un]
         split <;> rfl
-    · exact filter_flatMap_rename _ _ _ _ (fun _ => rfl)
+    · exact c11_neighbours_flatMap_rename _ _ _ _ (fun _ => rfl)
         (fun o => binaryItems_rename h.bin h.n h.tags h.deps it o) chart
-  · exact filter_flatMap_rename _ _ _ _ (fun _ => rfl)
+  · exact c11_neighbours_flatMap_rename _ _ _ _ (fun _ => rfl)
       (fun o => binaryItems_rename h.bin h.n h.tags h.deps o it) chart
 
 /-! ### renaming: the leaves are fixed -/
@@ -372,14 +544,14 @@ theorem leafItems_rename {g g' : Grammar} {s s' : Sent} (h : Renamed σ g g' s s
 
 theorem stepWith_rename {g g' : Grammar} {s s' : Sent} (h : Renamed σ g g' s s') (cfg : Cfg)
     (st : St) :
-    stepWith pickFirstMax g' s' cfg (renameSt σ st)
-      = (stepWith pickFirstMax g s cfg st).map (renameSt σ) := by
+    stepWith pickHeap g' s' cfg (renameSt σ st)
+      = (stepWith pickHeap g s cfg st).map (renameSt σ) := by
   unfold stepWith
   simp only [renameSt, List.length_map]
   split
   · rfl
-  · rw [pickFirstMax_map]
-    cases pickFirstMax st.agenda with
+  · rw [c11_pickHeap_pop_map]
+    cases pickHeap.pop st.agenda with
     | none => rfl
     | some p =>
       obtain ⟨it, rest⟩ := p
@@ -389,24 +561,27 @@ theorem stepWith_rename {g g' : Grammar} {s s' : Sent} (h : Renamed σ g g' s s'
       · split <;> rfl
       · split
         · rfl
-        · simp only [Option.map_some, renameSt, List.map_append, List.map_cons]
+        · simp only [Option.map_some, renameSt, c11_pickHeap_push_map, List.map_cons]
 
 theorem loop_rename {g g' : Grammar} {s s' : Sent} (h : Renamed σ g g' s s') (cfg : Cfg)
     (fuel : Nat) (st : St) :
-    loop pickFirstMax g' s' cfg fuel (renameSt σ st)
-      = renameSt σ (loop pickFirstMax g s cfg fuel st) := by
+    loop pickHeap g' s' cfg fuel (renameSt σ st)
+      = renameSt σ (loop pickHeap g s cfg fuel st) := by
   induction fuel generalizing st with
   | zero => rfl
   | succ fuel ih =>
     simp only [loop, stepWith_rename h]
-    cases stepWith pickFirstMax g s cfg st with
+    cases stepWith pickHeap g s cfg st with
     | none => rfl
     | some st' => exact ih st'
 
 theorem init_rename {g g' : Grammar} {s s' : Sent} (h : Renamed σ g g' s s') (cfg : Cfg) :
-    init s' cfg = renameSt σ (init s cfg) := by
+    init pickHeap s' cfg = renameSt σ (init pickHeap s cfg) := by
   unfold init renameSt
   rw [leafItems_rename h]
+  have hp := c11_pickHeap_push_map σ (leafItems s cfg) []
+  rw [List.map_nil] at hp
+  rw [hp]
   rfl
 
 theorem insertDesc_map (σ : Nat → Nat) (it : Item) (l : List Item) :
@@ -414,11 +589,11 @@ theorem insertDesc_map (σ : Nat → Nat) (it : Item) (l : List Item) :
   induction l with
   | nil => rfl
   | cons o os ih =>
-    by_cases hlt : o.prio < it.prio
-    · have hlt' : (renameItem σ o).prio < (renameItem σ it).prio := hlt
-      simp only [List.map_cons, insertDesc, if_pos hlt, if_pos hlt']
-    · have hlt' : ¬ (renameItem σ o).prio < (renameItem σ it).prio := hlt
-      simp only [List.map_cons, insertDesc, if_neg hlt, if_neg hlt', ih]
+    by_cases hle : o.prio ≤ it.prio
+    · have hle' : (renameItem σ o).prio ≤ (renameItem σ it).prio := hle
+      simp only [List.map_cons, insertDesc, if_pos hle, if_pos hle']
+    · have hle' : ¬ (renameItem σ o).prio ≤ (renameItem σ it).prio := hle
+      simp only [List.map_cons, insertDesc, if_neg hle, if_neg hle', ih]
 
 theorem sortDesc_map (σ : Nat → Nat) (l : List Item) :
     sortDesc (l.map (renameItem σ)) = (sortDesc l).map (renameItem σ) := by
